@@ -12,7 +12,7 @@
 (***************************************************************************)
 EXTENDS Naturals, Integers, Sequences, TLC, Json, IOUtils, SequencesExt
 
-CONSTANTS MaxLen, BlankStops, EndEmptyRaises, GluedKeepsWater, DropWaterChoices, Emit
+CONSTANTS MaxLen, BlankStops, EndEmptyRaises, GluedKeepsWater, EmptyModelContinues, DropWaterChoices, Emit
 VARIABLES dw, file, errs, pdblist, stopped, pc, res, tid, acc
 Traces == JsonDeserialize(IOEnv.TRACE_FILE)
 TraceAlphabet == JsonDeserialize(IOEnv.ALPHA_FILE)
